@@ -28,7 +28,7 @@ CASES = {"quick": 64, "thorough": 1600}
 BUDGET_S = {"quick": 40, "thorough": 600}
 MIN_EVALS = {"quick": 40, "thorough": 1200}
 FLOORS = {"stream_commit_checked": 200, "import_commit_checked": 150, "roundtrip": 40, "rev_parents": 200, "rev_tree": 200, "rev_meta": 200, "merge_revs": 20, "tags_compared": 15,
-          "delta_renamed": 40, "delta_removed": 40, "symlink_entries": 40, "exec_entries": 40, "plain": 15, "rich": 15}
+          "delta_renamed": 40, "delta_removed": 40, "delta_swap": 5, "symlink_entries": 40, "exec_entries": 40, "plain": 15, "rich": 15}
 SHARDS = {"quick": 6}  # every worker pays the same start-up (imports are compiled per process); fewer, longer shards
 EXHAUSTIVE = {"quick": False, "thorough": False}
 ASSUMPTIONS = [
@@ -126,6 +126,25 @@ def _no_empty_dirs(rng, wt, log):
     return False
 
 
+def _swap(rng, wt, log):
+    """Exchange the paths of two versioned entries through a temporary name (the shared generator has no such op)."""
+    st = observe.snap_tree(wt)
+    c = [p for p, v in st.items() if v[0] is not None]
+    if len(c) < 2:
+        return
+    a, b = rng.sample(sorted(c), 2)
+    if a.startswith(b + "/") or b.startswith(a + "/") or os.path.lexists(os.path.join(wt.basedir, "swap-tmp")):
+        return
+    try:
+        wt.rename_one(a, "swap-tmp")
+        wt.rename_one(b, a)
+        wt.rename_one("swap-tmp", b)
+        log.append({"op": "swap", "a": a, "b": b})
+    except Exception as e:
+        log.append({"refused": "swap", "err": type(e).__name__})
+        wt.revert()
+
+
 def _commit(h, name, wt, rng):
     from breezy import errors
 
@@ -192,6 +211,8 @@ def _build(ctx, rng, nrevs, nbranches):
             _commit(h, name, wt, rng)
             continue
         gen.random_delta(rng, wt, names, rng.randint(1, 5), WEIGHTS, h.log)
+        if rng.random() < 0.15:
+            _swap(rng, wt, h.log)
         if rng.random() < 0.3:
             try:
                 wt.smart_add([wt.basedir])
